@@ -13,6 +13,7 @@ package iptables_test
 
 import (
 	"context"
+	"encoding/json"
 	"errors"
 	"fmt"
 	"regexp"
@@ -652,9 +653,29 @@ func nftExplore(c *vk.Ctx) {
 }
 
 func nftReplay(c *vk.Ctx, spec string, hist []string) {
-	fails, err := hbfs.Replay(nftSpec(nftCfg{MaxFaults: 2, NoInv: true}, 99), hist)
-	if err != nil {
-		c.ToolError(err.Error())
+	cfg := nftCfg{MaxFaults: 2, NoInv: true}
+	var fails []hbfs.Fail
+	var evs []nftEv
+	for _, h := range hist {
+		var e nftEv
+		if err := json.Unmarshal([]byte(h), &e); err != nil {
+			c.ToolError("bad event in replay file: " + err.Error())
+			return
+		}
+		evs = append(evs, e)
+	}
+	for i := 1; i <= len(evs); i++ {
+		if err := vk.Catch(func() error {
+			s := nftNew(cfg)
+			for _, e := range evs[:i] {
+				nftApply(s, e)
+			}
+			fails = append(fails, nftCheck(s, evs[:i])...)
+			return nil
+		}); err != nil {
+			fails = append(fails, hbfs.Fail{Key: nftPanicKey(err.Error(), nil), Msg: err.Error()})
+			break
+		}
 	}
 	for _, f := range fails {
 		c.Violation(f.Key, map[string]any{"spec": spec, "history": hist, "msg": f.Msg})
